@@ -42,6 +42,8 @@ MCNext ==
         /\ hist' = Append(hist, A("way", n, p, "", Len(wire) + 1, "", IF knows[n][p] THEN "known" ELSE "unknownnode")) /\ UNCHANGED seen
   \/ \E i \in 1..Len(wire), t \in {"iv", "ver", "nonce", "src", "idn", "sig", "ct"} : Len(wire) < MaxWire /\ Recent(i) /\ MayTamper(i) /\ Tamper(i, t)
         /\ hist' = Append(hist, A("tamper", "", "", "", i, t, "")) /\ UNCHANGED seen
+  \/ \E i \in 1..Len(wire), m \in Msgs : Len(wire) < MaxWire /\ Recent(i) /\ MsgOK(m) /\ MayTamper(i) /\ Forge(i, m)
+        /\ hist' = Append(hist, A("forge", wire[i].dst, wire[i].src, m, i, "forged", "")) /\ UNCHANGED seen
   \/ \E i \in 1..Len(wire), to, from \in Node :
         /\ MayDeliver(i, to) /\ (from = wire[i].src \/ (Spoof /\ (~Guided \/ (i = Len(wire) /\ i % 4 = 0))))   \* guided: only the newest is spoofed
         /\ Deliver(i, to, from) /\ seen' = seen \cup {i}
